@@ -23,13 +23,59 @@ def rust_sources():
 
 
 def strip_rust(text):
-    """removes comments, string literals and #[cfg(test)] modules (line structure kept)"""
-    text = re.sub(r"/\*.*?\*/", lambda m: "\n" * m.group(0).count("\n"), text, flags=re.S)
-    text = re.sub(r"//[^\n]*", "", text)
-    text = re.sub(r'"(?:[^"\\\n]|\\.)*"', '""', text)
-    m = re.search(r"#\[cfg\(test\)\]\s*mod\s+\w+\s*\{", text)
-    if m:
-        text = text[:m.start()]
+    """removes comments, the contents of string / char literals and the bodies of #[cfg(test)] modules; the line
+    structure is kept.  One pass over the characters, so that a comment marker inside a string literal (or a quote
+    inside a comment) is not taken for the real thing; code that FOLLOWS a test module is kept."""
+    out = []
+    i, n = 0, len(text)
+    while i < n:
+        c = text[i]
+        two = text[i:i + 2]
+        if two == "//":
+            j = text.find("\n", i)
+            i = n if j < 0 else j
+        elif two == "/*":
+            depth, j = 1, i + 2
+            while j < n and depth:
+                if text[j:j + 2] == "/*":
+                    depth, j = depth + 1, j + 2
+                elif text[j:j + 2] == "*/":
+                    depth, j = depth - 1, j + 2
+                else:
+                    j += 1
+            out.append("\n" * text[i:j].count("\n"))
+            i = j
+        elif c == '"' or (c == "r" and re.match(r'r#*"', text[i:]) and not (i and (text[i - 1].isalnum() or text[i - 1] == "_"))):
+            if c == "r":
+                m = re.match(r'r(#*)"', text[i:])
+                close = '"' + m.group(1)
+                j = text.find(close, i + len(m.group(0)))
+                j = n if j < 0 else j + len(close)
+            else:
+                j = i + 1
+                while j < n and text[j] != '"':
+                    j += 2 if text[j] == "\\" else 1
+                j += 1
+            out.append('""' + "\n" * text[i:j].count("\n"))
+            i = j
+        elif c == "'" and re.match(r"'(\\.[^']*|[^'\\])'", text[i:]):
+            m = re.match(r"'(\\.[^']*|[^'\\])'", text[i:])
+            out.append("' '")
+            i += len(m.group(0))
+        else:
+            out.append(c)
+            i += 1
+    text = "".join(out)
+    # drop the brace-matched body of every #[cfg(test)] mod (not the rest of the file)
+    while True:
+        m = re.search(r"#\[cfg\(test\)\]\s*mod\s+\w+\s*\{", text)
+        if not m:
+            break
+        depth, j = 1, m.end()
+        while j < len(text) and depth:
+            depth += {"{": 1, "}": -1}.get(text[j], 0)
+            j += 1
+        text = text[:m.start()] + "\n" * text[m.start():j].count("\n") + text[j:]
     return text
 
 
@@ -54,7 +100,8 @@ PANICKY = (r"\.unwrap\(\)|\.expect\(|unreachable!|panic!|\bassert!|\bassert_eq!|
            r"\.insert\(\s*[\w.]+\s*,|\.drain\(|split_off\(|\.swap\(|replace_range\(|step_by\(|\.chunks\(|\.windows\(|from_str_radix\(|borrow_mut\(|\.borrow\(\)|"
            r"\.lock\(\)|copy_from_slice|clone_from_slice|\.truncate\(|_unchecked|process::exit|process::abort|\.write\(\)|\.read\(\)|"
            r"sort(_unstable)?_by(_key)?\(|binary_search_by|select_nth|\.repeat\(|with_capacity\(|vec!\[[^\]]*;|char::from_digit\(|\.rotate_(left|right)\(|"
-           r"\.split_first\(\)\.unwrap|\.first\(\)\.unwrap|\.last\(\)\.unwrap")
+           r"\.split_first\(\)\.unwrap|\.first\(\)\.unwrap|\.last\(\)\.unwrap|insert_str\(|::unwrap\(|::expect\(|\.unwrap_or_else\(\|\|\s*(panic|unreachable)|"
+           r"\.get\([^)]*\)\.unwrap|\.nth\([^)]*\)\.unwrap|\.next\(\)\.unwrap|\.parse::<[^>]*>\(\)\.unwrap|\.pop\(\)\.unwrap|set_len\(|\.copy_within\(")
 
 
 def panic_sites():
@@ -77,7 +124,7 @@ def panic_sites():
 ARITH = re.compile(r"(?<![=!<>&|+\-*/%^])\s(\+|-|\*|/|%|<<|>>)=?\s(?!=)|\bas\s+(u8|u16|u32|u64|u128|usize|i8|i16|i32|i64|i128|isize|f32|f64|Self::Float|Self::Int)\b|\.pow\(|\.abs\(\)|"
                    r"wrapping_|saturating_|overflowing_|unchecked_|\b(Add|Sub|Mul|Div|Rem|Neg|Shl|Shr)::(add|sub|mul|div|rem|neg|shl|shr)\b|\.(add|sub|mul|div|rem|neg|shl|shr)\(|"
                    r"(^|[(,=\[{]|return|=>)\s*-\s*[A-Za-z_(*]|\.sum\(|\.product\(|\.try_into\(|::try_from\(|"
-                   r"ilog(2|10)?\(|_euclid\(|abs_diff\(|next_power_of_two|::abs\(|::pow\(|\.signum\(|isqrt\(")
+                   r"ilog(2|10)?\(|_euclid\(|abs_diff\(|next_power_of_two|::abs\(|::pow\(|\.signum\(|isqrt\(|\.sum::<|div_ceil\(|\.to_digit\(|checked_next_multiple|\.pow\(|\.powi\(")
 
 
 def arithmetic_sites():
@@ -92,7 +139,7 @@ def arithmetic_sites():
         text = strip_rust(open(p).read())
         for line in text.splitlines():
             s = line.strip()
-            if not s or s.startswith(("#[", "use ", "#![", "///", "//")) or "->" in s and "fn " in s:
+            if not s or s.startswith(("#[", "use ", "#![", "///", "//")) or ("->" in s and "fn " in s and "{" not in s.split("->", 1)[1].replace("{", "", 1)):
                 continue
             if ARITH.search(s) and not re.search(r"impl<|where|: Add<|: Sub<|Output = Self", s):
                 sites.append([rel, re.sub(r"\s+", " ", s)])
